@@ -144,6 +144,9 @@ func (d *dataStatements) prepare(db *sql.DB) error {
 
 // CreateUpstreamMessage stores a new data element in the backend. The element is associated with the specified DevAddr
 func (s *Storage) CreateUpstreamMessage(deviceEUI protocol.EUI, data model.UpstreamMessage) error {
+	if err := gate("CreateUpstreamMessage", deviceEUI.String()); err != nil {
+		return err
+	}
 	return s.doSQLExec(s.dataStmt.createUpstream, func(st *sql.Stmt) (sql.Result, error) {
 		b64str := base64.StdEncoding.EncodeToString(data.Data)
 		return st.Exec(deviceEUI.ToInt64(),
@@ -203,11 +206,17 @@ func (s *Storage) doQuery(stmt *sql.Stmt, eui protocol.EUI, limit int) ([]model.
 
 // ListUpstreamMessages retrieves all of the data stored for that DevAddr
 func (s *Storage) ListUpstreamMessages(deviceEUI protocol.EUI, limit int) ([]model.UpstreamMessage, error) {
+	if err := gate("ListUpstreamMessages", deviceEUI.String()); err != nil {
+		return nil, err
+	}
 	return s.doQuery(s.dataStmt.listUpstream, deviceEUI, limit)
 }
 
 // CreateDownstreamMessage creates new downstream data for a device
 func (s *Storage) CreateDownstreamMessage(deviceEUI protocol.EUI, message model.DownstreamMessage) error {
+	if err := gate("CreateDownstreamMessage", deviceEUI.String()); err != nil {
+		return err
+	}
 	return s.doSQLExec(s.dataStmt.createDownstream, func(st *sql.Stmt) (sql.Result, error) {
 		return st.Exec(
 			deviceEUI.String(),
@@ -223,6 +232,9 @@ func (s *Storage) CreateDownstreamMessage(deviceEUI protocol.EUI, message model.
 
 // DeleteDownstreamMessage deletes a downstream message
 func (s *Storage) DeleteDownstreamMessage(deviceEUI protocol.EUI, createdTime int64) error {
+	if err := gate("DeleteDownstreamMessage", deviceEUI.String()); err != nil {
+		return err
+	}
 	return s.doSQLExec(s.dataStmt.deleteDownstream, func(st *sql.Stmt) (sql.Result, error) {
 		return st.Exec(deviceEUI.String(), createdTime)
 	})
@@ -230,6 +242,9 @@ func (s *Storage) DeleteDownstreamMessage(deviceEUI protocol.EUI, createdTime in
 
 // ListDownstreamMessages lists the scheduled downstream messages for a device
 func (s *Storage) ListDownstreamMessages(deviceEUI protocol.EUI) ([]model.DownstreamMessage, error) {
+	if err := gate("ListDownstreamMessages", deviceEUI.String()); err != nil {
+		return nil, err
+	}
 	var ret []model.DownstreamMessage
 
 	s.mutex.Lock()
@@ -254,6 +269,9 @@ func (s *Storage) ListDownstreamMessages(deviceEUI protocol.EUI) ([]model.Downst
 
 // GetNextUnsentMessage returns the oldest unsent message from the store
 func (s *Storage) GetNextUnsentMessage(deviceEUI protocol.EUI) (model.DownstreamMessage, error) {
+	if err := gate("GetNextUnsentMessage", deviceEUI.String()); err != nil {
+		return model.DownstreamMessage{}, err
+	}
 	var ret model.DownstreamMessage
 
 	s.mutex.Lock()
@@ -276,6 +294,9 @@ func (s *Storage) GetNextUnsentMessage(deviceEUI protocol.EUI) (model.Downstream
 
 // SetMessageSentTime sets the sent time and frame counter fields for a message in the store.
 func (s *Storage) SetMessageSentTime(deviceEUI protocol.EUI, createdTime int64, sentTime int64, frameCounterUp uint16) error {
+	if err := gate("SetMessageSentTime", deviceEUI.String()); err != nil {
+		return err
+	}
 	res, err := s.db.Exec(`
 		UPDATE 
 			lora_downstream_messages
@@ -300,6 +321,9 @@ func (s *Storage) SetMessageSentTime(deviceEUI protocol.EUI, createdTime int64, 
 
 // UpdateMessageAckTime sets the ack time field in the store.
 func (s *Storage) UpdateMessageAckTime(deviceEUI protocol.EUI, frameCounterUp uint16, ackTime int64) error {
+	if err := gate("UpdateMessageAckTime", deviceEUI.String()); err != nil {
+		return err
+	}
 	res, err := s.db.Exec(`
 		UPDATE 
 			lora_downstream_messages
@@ -323,6 +347,9 @@ func (s *Storage) UpdateMessageAckTime(deviceEUI protocol.EUI, frameCounterUp ui
 
 // ResetActiveAcks resets all active acks for a device in the store
 func (s *Storage) ResetActiveAcks(deviceEUI protocol.EUI) error {
+	if err := gate("ResetActiveAcks", deviceEUI.String()); err != nil {
+		return err
+	}
 	_, err := s.db.Exec(`
 		UPDATE 
 			lora_downstream_messages
